@@ -37,9 +37,15 @@
 (*  "outbox_cleared_before_push" hypothetical: exchange loses the events.     *)
 (*  "exchange_late"         hypothetical: events produced in a window are     *)
 (*                          exchanged one barrier later.                      *)
+(*  "link_latency_no_sample" AS CODE: for a link that declares a latency      *)
+(*                          distribution the exchange calls                   *)
+(*                          link.latency.sample(), which LatencyDistribution  *)
+(*                          does not have: run() raises at the first barrier  *)
+(*                          that carries an event over such a link.           *)
 EXTENDS Naturals, Integers, Sequences, FiniteSets, TLC
 
 CONSTANTS Confs,     \* set of configurations [ep : Seq(partition), np : Nat, links : SUBSET (P \X P), endT]
+                     \* (optional field ovl: links that declare a LatencyDistribution)
           MaxLat,    \* link minimum latencies range over 1..MaxLat
           MaxEv, MaxT, MaxOut,
           ShortWin,  \* window ends falling short of the nominal tick (float truncation):
@@ -51,7 +57,7 @@ Inf == 999999
 
 VARIABLES conf, lat, w,          \* configuration
           ev,                    \* program: 1..N -> [t, tgt, par]; id = creation order in the reference run
-          phase,                 \* "build" | "seq" | "par" | "done"
+          phase,                 \* "build" | "seq" | "par" | "done" | "crashed" (run() raised)
           sheap, slog,           \* sequential reference: heap (ids), per-entity delivery log (ids)
           heap, clock, outbox,   \* per partition
           pdone,                 \* per partition: _run_window returned
@@ -80,6 +86,7 @@ MinT(S) == CHOOSE t \in { ev[i].t : i \in S } : \A j \in S : t <= ev[j].t
 MinOf(S) == CHOOSE m \in S : \A x \in S : m <= x
 LexLE(a, b) == a[1] < b[1] \/ (a[1] = b[1] /\ a[2] <= b[2])
 E == endN - endS                 \* last tick inside the current window
+OvlLinks == IF "ovl" \in DOMAIN conf THEN conf.ovl ELSE {}
 
 Empty(f) == [x \in DOMAIN f |-> {}]
 
@@ -208,9 +215,18 @@ Arriving ==
     ELSE Outgoing
 
 ExchangeGuard == phase = "par" /\ sub = "exec" /\ \A p \in Parts : pdone[p]
+\* link.latency.sample() -> AttributeError
+Crashes == /\ "link_latency_no_sample" \in Dev
+           /\ \E c \in Arriving : <<PartEv(ev[c].par), PartEv(c)>> \in OvlLinks
+
+ExchangeCrash ==
+    /\ ExchangeGuard /\ Crashes
+    /\ phase' = "crashed" /\ sub' = "-"
+    /\ UNCHANGED <<conf, lat, w, ev, sheap, slog, heap, clock, outbox, pdone, curN, curS, endN, endS, plog,
+                   dropped, late, ovr, shist>>
 
 Exchange ==
-    /\ ExchangeGuard
+    /\ ExchangeGuard /\ ~Crashes
     /\ heap' = [q \in Parts |-> heap[q] \cup { c \in Arriving : PartEv(c) = q }]   \* dest.schedule(event)
     /\ outbox' = IF "no_outbox_clear" \in Dev THEN outbox ELSE Empty(outbox)
     /\ late' = IF "exchange_late" \in Dev THEN Outgoing ELSE late
@@ -267,10 +283,11 @@ Next ==
     \/ \E p \in Parts : \E i \in heap[p] : ExecStep(p, i)
     \/ \E p \in Parts : ExecDone(p)
     \/ Exchange
+    \/ ExchangeCrash
     \/ \E s \in ShortChoices(endS, FALSE) : Advance(s)
     \/ \E p \in Parts : \E i \in heap[p] : IndepStep(p, i)
     \/ IndepFinish
-    \/ (phase = "done" /\ UNCHANGED vars)
+    \/ (phase \in {"done", "crashed"} /\ UNCHANGED vars)
 
 Spec == Init /\ [][Next]_vars
 
@@ -292,11 +309,12 @@ InvNoDup == \A e \in Ents : \A j, k \in 1..Len(plog[e]) : j # k => plog[e][j] # 
 InvTimeOrder == \A e \in Ents : \A j, k \in 1..Len(plog[e]) : j < k => ev[plog[e][j]].t <= ev[plog[e][k]].t
 \* "no cross-partition event is lost": once the run is over, every cross event a delivered handler
 \* produced has been delivered
+Over == phase \in {"done", "crashed"}        \* run() returned or raised
 InvNoLoss ==
-    phase = "done" => \A i \in 1..N : (Cross(i) /\ Judged(i) /\ ev[i].par \in Delivered) => i \in Delivered
+    Over => \A i \in 1..N : (Cross(i) /\ Judged(i) /\ ev[i].par \in Delivered) => i \in Delivered
 \* "delivers to every entity the same deliveries (time, event type) ... as the sequential run"
 InvSameDeliveries ==
-    phase = "done" => \A e \in Ents :
+    Over => \A e \in Ents :
         { i \in ParDelivered(e) : Judged(i) } = { i \in SeqDelivered(e) : Judged(i) }
 \* "independent partitions (no links) behave exactly like separate simulations": same sequence,
 \* ties included (a separate Simulation of partition p is the reference run restricted to p)
